@@ -133,7 +133,9 @@ func (evt *startEvent) NextAction(ctx context.Context, flow Flow) chan IAction {
 		go evt.run(ctx, sender)
 	})
 
-	response := make(chan IAction)
+	// buffered: the node answers exactly once per request and must not block
+	// on a flow that has gone (instance cancelled)
+	response := make(chan IAction, 1)
 	evt.mch <- nextActionMessage{response: response, flow: flow}
 	return response
 }
